@@ -277,9 +277,6 @@ func (e *Engine) execSlice(st *State, th *Thread, fr *Frame, in *ssa.Slice) {
 		if o.Kind == OBytes {
 			e.setReg(st, th, in, SliceV{Obj: a.Obj, Off: lo, Len: tb.Sub(hi, lo), Cap: tb.Sub(mx, lo)})
 		} else {
-			if isByteType(at.Elem()) {
-				panic(&Unsupported{"slicing a byte array nested inside another object"})
-			}
 			e.setReg(st, th, in, SliceV{Obj: a.Obj, Base: a.Path, Off: lo, Len: tb.Sub(hi, lo), Cap: tb.Sub(mx, lo)})
 		}
 	default:
@@ -336,6 +333,24 @@ func (e *Engine) bytesOf(st *State, v Value) (*ByteArr, *Term, *Term) {
 			return e.tb.ArrZero(), e.tb.Int64(0), a.Len
 		}
 		o := st.obj(a.Obj)
+		if o.Kind == OCells {
+			// a byte array nested inside another object (e.g. a [10]byte struct field): build a view of its cells
+			arrV, ok := loadPath(o.V, a.Base).(*ArrayV)
+			if !ok {
+				panic(&Unsupported{"byte view of a non-array cell"})
+			}
+			arr := e.tb.ArrZero()
+			for i, el := range arrV.E {
+				t, isT := el.(*Term)
+				if !isT || t.W != 8 {
+					panic(&Unsupported{"byte view of a non-byte array"})
+				}
+				if !(t.IsConst() && t.K == 0) {
+					arr = e.tb.ArrStore(arr, e.tb.Int64(int64(i)), t)
+				}
+			}
+			return arr, a.Off, a.Len
+		}
 		if o.Kind != OBytes {
 			panic(&Unsupported{"byte view of a non-byte object"})
 		}
@@ -379,12 +394,24 @@ func (e *Engine) doAppend(st *State, th *Thread, sv, tv Value, st0 types.Type) V
 		if s.Obj != 0 && e.decide(st, tb.SLe(newLen, s.Cap)) {
 			o := st.wobj(s.Obj)
 			if e.Cfg.Race && st.Multi {
-				e.hbAccess(st, th, o, Ptr{Obj: s.Obj}, true, token.NoPos)
+				e.hbAccess(st, th, o, Ptr{Obj: s.Obj, Path: s.Base}, true, token.NoPos)
+			}
+			if o.Kind == OCells {
+				e.writeCellBytes(st, o, s, s.Len, srcArr, srcOff, n)
+				return SliceV{Obj: s.Obj, Base: s.Base, Off: s.Off, Len: newLen, Cap: s.Cap}
 			}
 			o.Arr = tb.ArrCopy(o.Arr, tb.Add(s.Off, s.Len), srcArr, srcOff, n)
 			return SliceV{Obj: s.Obj, Off: s.Off, Len: newLen, Cap: s.Cap}
 		}
 		// grow
+		if s.Obj != 0 && st.obj(s.Obj).Kind == OCells {
+			oa, oo, ol := e.bytesOf(st, s)
+			arr := tb.ArrCopy(tb.ArrZero(), tb.Int64(0), oa, oo, ol)
+			arr = tb.ArrCopy(arr, s.Len, srcArr, srcOff, n)
+			nc := tb.Add(newLen, newLen)
+			id := e.allocBytes(st, arr, nc)
+			return SliceV{Obj: id, Off: tb.Int64(0), Len: newLen, Cap: nc}
+		}
 		dbl := tb.Add(s.Cap, s.Cap)
 		newCap := tb.Ite(tb.SLt(dbl, newLen), newLen, dbl)
 		var oldArr *ByteArr = tb.ArrZero()
@@ -449,7 +476,11 @@ func (e *Engine) doCopy(st *State, th *Thread, dv, sv Value, dt types.Type) Valu
 		}
 		o := st.wobj(d.Obj)
 		if e.Cfg.Race && st.Multi {
-			e.hbAccess(st, th, o, Ptr{Obj: d.Obj}, true, token.NoPos)
+			e.hbAccess(st, th, o, Ptr{Obj: d.Obj, Path: d.Base}, true, token.NoPos)
+		}
+		if o.Kind == OCells {
+			e.writeCellBytes(st, o, d, tb.Int64(0), srcArr, srcOff, n)
+			return n
 		}
 		o.Arr = tb.ArrCopy(o.Arr, d.Off, srcArr, srcOff, n)
 		return n
@@ -661,4 +692,22 @@ func (e *Engine) execNext(st *State, th *Thread, fr *Frame, in *ssa.Next) {
 		e.setReg(st, th, in.Iter.(ssa.Value), &n)
 	}
 	e.advance(st, th)
+}
+
+// writeCellBytes copies n bytes from src[soff...] into the cells-backed byte array slice d, starting at slice
+// index at (concrete offsets and length required).
+func (e *Engine) writeCellBytes(st *State, o *Object, d SliceV, at *Term, src *ByteArr, soff, n *Term) {
+	tb := e.tb
+	cnt := int(e.constOf(n, "length of a copy into a nested byte array"))
+	base := int(e.constOf(tb.Add(d.Off, at), "offset of a copy into a nested byte array"))
+	arrV := loadPath(o.V, d.Base).(*ArrayV)
+	na := &ArrayV{E: append([]Value(nil), arrV.E...)}
+	vals := make([]*Term, cnt)
+	for i := 0; i < cnt; i++ {
+		vals[i] = tb.ArrRead(src, tb.Add(soff, tb.Int64(int64(i))))
+	}
+	for i := 0; i < cnt; i++ {
+		na.E[base+i] = vals[i]
+	}
+	o.V = storePath(o.V, d.Base, na)
 }
